@@ -46,7 +46,7 @@ if _sys.version_info < (3, 11):  # pragma: no cover
     from exceptiongroup import BaseExceptionGroup
 
 NAME = "resources"
-PROPS = ("C02", "C03", "C04", "C18", "C19")
+PROPS = ("C02", "C03", "C04", "C18", "C19", "C10")
 SENTINEL = "__sentinel__"
 TNAMES = ("A", "B", "C", "D", "L")
 
@@ -181,6 +181,14 @@ class H:
                     # an earlier subscriber of the same signal with a tiny queue that nobody
                     # drains: it overflows at once and must not affect anybody else
                     await lstack.enter_async_context(ctx.resource_added.stream_events(max_queue_size=b["noisy_listener"] - 1))
+                if b.get("boom_listener"):
+                    # somebody else's subscription with a filter that raises for every event;
+                    # filters are the listener's own business (they run when *it* consumes),
+                    # never the publisher's
+                    def boom_filter(ev: Any) -> bool:
+                        raise SimError("a listener's filter")
+
+                    await lstack.enter_async_context(ctx.resource_added.stream_events(boom_filter))
                 early_cm = None
                 if b.get("early_leaver") is not None:
                     # another listener that subscribed *before* the one below and leaves in
@@ -391,6 +399,13 @@ class H:
                 pass
 
             kwargs["teardown_callback"] = needs_arg
+        elif spec.get("td") == "genfunc" and not bad:
+            # a generator function: callable, so accepted - calling it at teardown merely
+            # creates a generator object (nothing runs, nothing fails)
+            def gen_cb():  # type: ignore[no-untyped-def]
+                yield
+
+            kwargs["teardown_callback"] = gen_cb
         elif spec.get("td"):
             tdid = "td_" + self.vtag(value) + (f"_{self.nval}" if spec.get("reuse") else "")
 
@@ -1256,6 +1271,7 @@ def oracle(sim: Sim, plan: dict) -> list[dict]:
         for e in obs_events.get(cid, []):
             if e["source"] != cid or e["topic"] != "resource_added":
                 v("C18.events", "source", f"event on {cid} has source {e['source']} topic {e['topic']}")
+                v("C10.stamp", "resource_event", f"a resource_added event received by a listener of {cid} is stamped with source {e['source']} topic {e['topic']} by the time it is consumed")
         got_td = td_runs.get(cid, [])
         never = [t for t in m.tds if t not in got_td]
         twice = sorted({t for t in got_td if got_td.count(t) > 1})
@@ -1322,8 +1338,8 @@ class G:
                 spec["reuse"] = True
             if rng.random() < 0.3:
                 spec["td"] = True
-                if rng.random() < 0.06:
-                    spec["td"] = "reqarg"
+                if rng.random() < 0.1:
+                    spec["td"] = rng.choice(("reqarg", "genfunc"))
                 elif rng.random() < 0.4:
                     late: list = []
                     for _ in range(rng.choice((1, 1, 2))):
@@ -1519,7 +1535,9 @@ class G:
             b["noisy_listener"] = rng.choice((1, 2))
         if rng.random() < 0.15:
             b["early_leaver"] = rng.randint(0, 3)
-        late = "noisy_listener" not in b and "early_leaver" not in b and rng.random() < (0.06 if self.prop == "C18" else 0.01)
+        if rng.random() < 0.08:
+            b["boom_listener"] = True
+        late = "noisy_listener" not in b and "early_leaver" not in b and "boom_listener" not in b and rng.random() < (0.06 if self.prop == "C18" else 0.01)
         if rng.random() < (0.1 if not lineage else 0.02):
             b["ballast"] = rng.choice((31, 32, 33, 40, 64))
         if len(lineage) >= 2 and rng.random() < 0.15:
